@@ -514,6 +514,28 @@ theorem stored_frames_tiled_full {α} [BEq α] [LawfulBEq α] (z : α) (Ms : Lis
   exact ⟨rows, frames, by rw [tiledSegTable_full_eq_sparse z Ms R C tr tc hr hc hR hC]; exact h, h2, h3, h4⟩
 
 
+/-- **`get_volume` on a tiled image reads the region `get_total_pixel_matrix` reads** (glue: the request is normalised once with
+`outputs_as_indices=True`, the 0-based results are handed on with `as_indices=True` and normalised AGAIN — both calls regenerated,
+T4fv).  Whenever the first normalisation accepts, the pixel array is that of the direct read of the original request (so every
+theorem above applies to it); whenever it refuses, the direct read refuses as well.  Normalising twice neither shifts nor clamps:
+`stdRowCol_renormalise`. -/
+theorem volume_region_is_matrix_region {α} (z : α) (lut : List LutRow) (frames : List (Img α)) (R C th tw : Int)
+    (chan : Option Int) (rs re cs ce : Option Int) (ai full am : Bool) :
+    (∀ a b c d, stdRowColIndices rs re cs ce R C ai true = .ok (a, b, c, d) →
+      readVolumeRegion z lut frames R C th tw chan rs re cs ce ai full am = readRegion z lut frames R C th tw chan rs re cs ce ai full am) ∧
+    (∀ e, stdRowColIndices rs re cs ce R C ai true = .error e →
+      readVolumeRegion z lut frames R C th tw chan rs re cs ce ai full am = .error e ∧
+      ∃ e', readRegion z lut frames R C th tw chan rs re cs ce ai full am = .error e') :=
+  readVolumeRegion_eq z lut frames R C th tw chan rs re cs ce ai full am
+
+/-- the 0-based results of an accepted request, read again as 0-based indices, denote the same rows and columns -/
+theorem request_renormalised (rs re cs ce : Option Int) (R C : Int) (ai : Bool) (a b c d : Int)
+    (h : stdRowColIndices rs re cs ce R C ai true = .ok (a, b, c, d)) :
+    stdRowColIndices (some a) (some b) (some c) (some d) R C true false = .ok (a + 1, b + 1, c + 1, d + 1) ∧
+    stdRowColIndices rs re cs ce R C ai false = .ok (a + 1, b + 1, c + 1, d + 1) :=
+  stdRowCol_renormalise rs re cs ce R C ai a b c d h
+
+
 /-! ## Several segments at once, and histories of reads on one object
 
 `Segmentation.get_total_pixel_matrix(segment_numbers=…)` joins the frame table with a temporary channel table (one row per requested
@@ -760,5 +782,7 @@ example : ∃ rows frames, tiledSegTable (0 : Int) [(1, exM), (2, fun _ _ => 0)]
     (by decide) (by decide) (by decide) true
   exact ⟨rows, frames, h⟩
 example : rowsOfKept [(1, 1, 1), (1, 1, 4), (2, 3, 1)] 0 = [⟨1, 1, 0, 1⟩, ⟨1, 4, 1, 1⟩, ⟨3, 1, 2, 2⟩] := by decide
+example : stdRowColIndices (some (-2)) none none (some (-1)) 5 4 false true = .ok (3, 5, 0, 3) ∧
+    stdRowColIndices (some 3) (some 5) (some 0) (some 3) 5 4 true false = .ok (4, 6, 1, 4) := by decide
 
 end HdVerif.Examples.C04
